@@ -50,6 +50,7 @@ func TestC09(t *testing.T) {
 			}
 			h.Intents = append(h.Intents, sim.BridgeIntents()...)
 			h.Intents = append(h.Intents, sim.BridgeIntents()...)
+			h.Focus = []types.Address{types.BridgeContract, types.LiquidityContract}
 		}
 		seen := map[types.Hash]bool{}
 		refunds, applied, straddle, nonDefault := 0, 0, 0, 0
@@ -136,6 +137,8 @@ func TestC09(t *testing.T) {
 			"callABI": h.ActCallABI, "callABI2": h.ActCallABI, "callABI3": h.ActCallABI,
 			"intent": h.ActIntent, "intent2": h.ActIntent, "intent3": h.ActIntent,
 			"produce": h.ActProduce, "produce2": h.ActProduce,
+			// epochs close (reward updates of every contract run), locks and time challenges expire
+			"skipAhead": func() { h.Produce(c.Int("skipAhead", 5, 400)) },
 		}
 		c.Repeat(acts, inv)
 		for i := 0; i < 3 && !h.Dead; i++ {
